@@ -20,6 +20,6 @@ def run(ctx):
     if not os.environ.get("ONLY_ROUNDS"):
         ml.run_mixes(ctx, rp, jobs, max_paths=500 if ctx.quick else 20000)
     # several rounds per party (ownership and awaiter objects reused), run-queue hand-over, release on a helper thread
-    ml.run_rounds_all(ctx, rp, ml.ROUNDS_QUICK if ctx.quick else ml.ROUNDS_QUICK + ml.ROUNDS_MORE, max_paths=400 if ctx.quick else 20000)
+    ml.run_rounds_all(ctx, rp, ml.ROUNDS_QUICK if ctx.quick else ml.ROUNDS_QUICK + ml.ROUNDS_MORE, max_paths=400 if ctx.quick else 6000)
     ctx.assume("compare_exchange_weak does not fail spuriously (x86-64 lock cmpxchg); weak CAS is executed as strong under the controlled scheduler")
     ctx.assume("finest grain: one round per party for up to 4 parties (Mutex.tla), 2-3 rounds for 2-3 parties (MutexRounds.tla)")
